@@ -24,8 +24,8 @@ MANIFEST = dict(
          "(other_states wiring, _complete_prev_state in both passes, _add_state_history, [prev, current] product, "
          "keys/states_ind, combiner -> states_ind_final, prepare_inputs/inputs_ind, _split_task, "
          "LazyOutField._get_value). C03_partial: for every workflow of the modelled fragment (any number of nodes, any "
-         "list lengths) in the computable class c03_aligned (inputs of every node carry separate origins or are exactly "
-         "a state and its relay; two combiner side conditions) the model's outputs equal the nested-loop (origin "
+         "list lengths, any own splitters and combiners) in the computable class c03_aligned (inputs of every node carry "
+         "separate origins or are exactly a state and its relay) the model's outputs equal the nested-loop (origin "
          "coordinate) evaluation; corollaries C03_chain, C03_fanin_independent (graph classes), C03_shared_direct. "
          "C03_refuted: the full statement is false - the diamond multiplies a shared origin (F03). The fragment is "
          "python-task nodes, one output, own splitter = outer product of own fields, combiner = any axes of the node; "
@@ -65,8 +65,6 @@ FN = "abc"
 MAXJOBS = 48
 FINDINGS = {
     "F03": "share",
-    "F03g": "comb_all_prev",
-    "F03h": "empty_comb",
 }
 
 
@@ -398,13 +396,10 @@ Definition out_domain (c : case_t) : bool := negb (c03_aligned (fst c)).
 Definition not_separate (c : case_t) : bool := negb (c03_domain (fst c)).
 Definition not_wf (c : case_t) : bool := wf_ok (fst c).
 Definition cls_share (c : case_t) : bool := share_class (fst c).
-Definition cls_comb_all_prev (c : case_t) : bool := comb_all_prev_class (fst c).
-Definition cls_empty_comb (c : case_t) : bool := empty_comb_class (fst c).
 Definition model_is_spec (c : case_t) : bool := obs_eqb (model_run (fst c)) (Some (spec_run (fst c))).
 """
 CHECKS = {"tie": "tie_ok", "spec": "spec_ok", "in_domain": "out_domain", "separate": "not_separate", "ill_formed": "not_wf",
-          "share": "cls_share", "comb_all_prev": "cls_comb_all_prev", "empty_comb": "cls_empty_comb",
-          "model_ne_spec": "model_is_spec"}
+          "share": "cls_share", "model_ne_spec": "model_is_spec"}
 
 
 def short(v):
@@ -461,8 +456,6 @@ def run(ctx):
     dist.update(fan_in=0, with_combiner=0, with_empty_list=0, impl_raised=0, in_proved_class=len(res["in_domain"]))
     dist["in_separate_origins_class"] = len(res["separate"])
     dist["class_share_violated"] = len(res["share"])
-    dist["class_comb_all_prev_violated"] = len(res["comb_all_prev"])
-    dist["class_empty_comb_violated"] = len(res["empty_comb"])
     dist["model_differs_from_spec"] = len(res["model_ne_spec"])
     nontriv = 0
     for c, o in zip(cases, obs):
@@ -509,10 +502,10 @@ def replay(ctx, payload):
     print("implementation:", show_obs(o))
     vals = coqio.eval_terms(ctx.scratch, "replay", IMPORTS,
                             ["model_run %s" % enc_wf(case), "spec_run %s" % enc_wf(case),
-                             "(c03_aligned %s, share_class %s, comb_all_prev_class %s, empty_comb_class %s)" % ((enc_wf(case),) * 4)])
+                             "(c03_aligned %s, share_class %s)" % ((enc_wf(case),) * 2)])
     print("model         :", vals[0])
     print("spec          :", vals[1])
-    print("(in proved class, sharing ok, comb-all-prev ok, empty-comb ok):", vals[2])
+    print("(in proved class, sharing ok):", vals[2])
 
 
 if __name__ == "__main__":
